@@ -20,31 +20,32 @@ import (
 )
 
 type edge struct {
-	from, to  *sync.Mutex
+	from, to  sync.Locker
 	fromSite  string
 	toSite    string
 	gid       int64
-	gates     []*sync.Mutex // other locks held when the edge was taken
+	gates     []sync.Locker // other locks held when the edge was taken
 	fromClass string
 	toClass   string
 }
 
 var (
-	mu       sync.Mutex
-	enabled  int32
-	yieldP   int32 // probability (per mille) of a yield at a lock boundary
-	rng      = rand.New(rand.NewSource(1))
-	held     = map[int64][]heldLock{}
-	edges    = map[[2]*sync.Mutex]*edge{}
-	classOf  = map[*sync.Mutex]string{}
-	sites    = map[string]int64{}
-	fp       uint64
-	acquires int64
-	yields   int64
+	mu        sync.Mutex
+	enabled   int32
+	yieldP    int32 // probability (per mille) of a yield at a lock boundary
+	rng       = rand.New(rand.NewSource(1))
+	held      = map[int64][]heldLock{}
+	edges     = map[[2]sync.Locker]*edge{}
+	classOf   = map[sync.Locker]string{}
+	sites     = map[string]int64{}
+	fp        uint64
+	acquires  int64
+	yields    int64
+	recursive = map[string]string{}
 )
 
 type heldLock struct {
-	m    *sync.Mutex
+	m    sync.Locker
 	site string
 }
 
@@ -64,8 +65,9 @@ func Reset(full bool) {
 	held = map[int64][]heldLock{}
 	fp = 0
 	if full {
-		edges = map[[2]*sync.Mutex]*edge{}
-		classOf = map[*sync.Mutex]string{}
+		edges = map[[2]sync.Locker]*edge{}
+		classOf = map[sync.Locker]string{}
+		recursive = map[string]string{}
 	}
 	mu.Unlock()
 }
@@ -114,7 +116,7 @@ func siteClass(site string) string {
 
 // Lock is injected in place of m.Lock(). site is "pkg/file.go:line#class" where
 // class is the source text of the lock expression (e.g. "mbox.mutex").
-func Lock(m *sync.Mutex, site string) {
+func Lock(m sync.Locker, site string) {
 	if atomic.LoadInt32(&enabled) == 0 {
 		m.Lock()
 		return
@@ -124,9 +126,9 @@ func Lock(m *sync.Mutex, site string) {
 	mu.Lock()
 	hs := held[g]
 	for _, h := range hs {
-		key := [2]*sync.Mutex{h.m, m}
+		key := [2]sync.Locker{h.m, m}
 		if _, ok := edges[key]; !ok && h.m != m {
-			var gates []*sync.Mutex
+			var gates []sync.Locker
 			for _, o := range hs {
 				if o.m != h.m {
 					gates = append(gates, o.m)
@@ -149,7 +151,7 @@ func Lock(m *sync.Mutex, site string) {
 }
 
 // Unlock is injected in place of m.Unlock().
-func Unlock(m *sync.Mutex, site string) {
+func Unlock(m sync.Locker, site string) {
 	if atomic.LoadInt32(&enabled) == 0 {
 		m.Unlock()
 		return
@@ -171,6 +173,89 @@ func Unlock(m *sync.Mutex, site string) {
 	mu.Unlock()
 	m.Unlock()
 	maybeYield()
+}
+
+// RLock is injected in place of m.RLock(). Read locks take part in the lock-order graph like
+// exclusive ones (a reader waiting behind a queued writer blocks like a writer). Acquiring a read
+// lock that the same goroutine already holds is recorded separately: sync.RWMutex prohibits
+// recursive read locking because it deadlocks as soon as a writer queues up in between.
+func RLock(m *sync.RWMutex, site string) {
+	if atomic.LoadInt32(&enabled) == 0 {
+		m.RLock()
+		return
+	}
+	maybeYield()
+	g := gid()
+	var key sync.Locker = m
+	mu.Lock()
+	hs := held[g]
+	for _, h := range hs {
+		if h.m == key {
+			k := strip(h.site) + "->" + strip(site)
+			if _, dup := recursive[k]; !dup {
+				recursive[k] = fmt.Sprintf("%s is read-locked at %s while the same goroutine already holds it (taken at %s): with a writer queued in between both wait forever", siteClass(site), strip(site), strip(h.site))
+			}
+			continue
+		}
+		ek := [2]sync.Locker{h.m, key}
+		if _, ok := edges[ek]; !ok {
+			var gates []sync.Locker
+			for _, o := range hs {
+				if o.m != h.m {
+					gates = append(gates, o.m)
+				}
+			}
+			edges[ek] = &edge{from: h.m, to: key, fromSite: h.site, toSite: site, gid: g, gates: gates, fromClass: siteClass(h.site), toClass: siteClass(site)}
+		}
+	}
+	mu.Unlock()
+	m.RLock()
+	mu.Lock()
+	held[g] = append(held[g], heldLock{key, site})
+	classOf[key] = siteClass(site)
+	sites[site]++
+	acquires++
+	h := fnv.New64a()
+	fmt.Fprintf(h, "%d|%s", fp, site)
+	fp = h.Sum64()
+	mu.Unlock()
+}
+
+// RUnlock is injected in place of m.RUnlock().
+func RUnlock(m *sync.RWMutex, site string) {
+	if atomic.LoadInt32(&enabled) == 0 {
+		m.RUnlock()
+		return
+	}
+	g := gid()
+	var key sync.Locker = m
+	mu.Lock()
+	hs := held[g]
+	for i := len(hs) - 1; i >= 0; i-- {
+		if hs[i].m == key {
+			hs = append(hs[:i], hs[i+1:]...)
+			break
+		}
+	}
+	if len(hs) == 0 {
+		delete(held, g)
+	} else {
+		held[g] = hs
+	}
+	mu.Unlock()
+	m.RUnlock()
+	maybeYield()
+}
+
+// RecursiveReadLocks returns the recursive read-lock acquisitions seen so far (key -> description).
+func RecursiveReadLocks() map[string]string {
+	mu.Lock()
+	defer mu.Unlock()
+	out := map[string]string{}
+	for k, v := range recursive {
+		out[k] = v
+	}
+	return out
 }
 
 // Stats of the run so far.
@@ -211,7 +296,7 @@ type Cycle struct {
 func Cycles() []Cycle {
 	mu.Lock()
 	defer mu.Unlock()
-	adj := map[*sync.Mutex][]*edge{}
+	adj := map[sync.Locker][]*edge{}
 	for _, e := range edges {
 		adj[e.from] = append(adj[e.from], e)
 	}
@@ -226,7 +311,7 @@ func Cycles() []Cycle {
 			return // a single goroutine cannot deadlock with itself through ordering
 		}
 		// common gate lock held on every edge => the cycle is guarded
-		gateCount := map[*sync.Mutex]int{}
+		gateCount := map[sync.Locker]int{}
 		for _, e := range path {
 			for _, g := range e.gates {
 				gateCount[g]++
